@@ -178,7 +178,7 @@ func (c *control) readDir() {
 			}
 		case '#':
 			params = append(params, len(c.args)-c.argPos)
-		case 'v':
+		case 'v', 'V':
 			var p any
 			p = c.nextArg()
 			c.checkParamSize(p)
